@@ -336,7 +336,7 @@ def g_new_shell(rng, cfg):
         "coord": coord,
         "share": share,
         "ctype": rng.choice(["cartesian", "spherical", "spherical", "c", "p"]),
-        "cls": rng.choice(["base", "base", "base", "conv", "pyscf", "unnorm", "cartperm", "sphperm", "instconv"]),
+        "cls": rng.choice(["base", "base", "base", "conv", "pyscf", "unnorm", "cartperm", "sphperm", "instconv", "instconv"]),
         "variant": rng.randrange(3),
         "array_layout": rng.choice(["c", "c", "c", "strided", "column"]),
         "icenter": rng.choice([None, None, 0, 1, 2]),
@@ -561,7 +561,8 @@ def g_update(rng, cfg):
     return {
         "op": "update",
         "sd": rng.randrange(D),
-        "what": rng.choice(["coeffs", "coeffs", "exps", "exps", "coord", "angmom", "coord_type", "icenter"]),
+        "what": rng.choice(["coeffs", "coeffs", "exps", "exps", "coord", "angmom", "coord_type", "icenter", "variant"]),
+        "variant": rng.randrange(3),
         "how": rng.choice(["rebind", "inplace"]),
         "exps": [_exp(rng) for _ in range(4)],
         "coeffs": [[_coef(rng) for _ in range(M)] for _ in range(4)],
